@@ -73,6 +73,7 @@ CONVS = {
     0: None,  # From
     1: ("conv_u32_to_string", "u32", "String", "x.to_string()"),
     2: ("conv_u16_add1000", "u16", "u32", "x as u32 + 1000"),
+    3: ("conv_u16_to_string", "u16", "String", "x.to_string()"),
 }
 
 
@@ -571,7 +572,7 @@ def families():
     fams.append(("FamConvert", [
         [S("T", [F("a", "u16"), F("b", "u8")])],
         [S("T", [F("a", "u32", ver=(1, None), as_=[(0, 0, "u16", 0)]), F("b", "u8")])],
-        [S("T", [F("a", "String", ver=(2, None), as_=[(0, 0, "u16", 1)] if False else [(1, 1, "u32", 1)]), F("b", "u8")])],
+        [S("T", [F("a", "String", ver=(2, None), as_=[(0, 0, "u16", 3), (1, 1, "u32", 1)]), F("b", "u8")])],
     ]))
     fams.append(("FamVariant", [
         [E("T", [Vr("A"), Vr("B", [F("x0", "u32")])])],
@@ -592,6 +593,7 @@ def main():
     for t in curated():
         g.emit_item(t)
         g.register(t.name, t.name, t)
+    downgradable = {"FamAdd", "FamAbiRemove", "FamNested", "FamAddPacked", "FamAbiNested"}
     for fam, versions in families():
         nver = len(versions)
         for k, items in enumerate(versions):
@@ -601,6 +603,8 @@ def main():
             for t in items:
                 t.versions = list(range(0, k + 1))
                 t.containers = ("vec",) if t.name == "T" else ()
+                if fam in downgradable:
+                    t.tags = list(t.tags) + ["downgradable"]
                 g.emit_item(t, prefix=mod + "_")
                 if t.name == "T":
                     g.register("%s::%s" % (mod, t.name), "%s_%s" % (mod, t.name), t, family=(fam, k))
